@@ -214,13 +214,19 @@ def sroot_scenarios():
         ('S.o.z attribute', (S(o=Val(O())), Assign(S.o.z, T['v']), S.o.z), 5),
         ('S.box.*[k]', (S(box=Val({'p': {}, 'q': {}})), Assign(S.box.__star__()['k'], T['v']), S.box), {'p': {'k': 5}, 'q': {'k': 5}}),
         ('shadowing a binding', (S(k=Val(1)), Assign(S.k, T['v']), S.k), 5),
+        # F39: the argument of the LAST step is evaluated like those before it (reading the same path back gives the value)
+        ('T-valued last index', (Assign(T['a'][T['k']], T['v']), T['a'][T['k']]), 5, lambda: {'v': 5, 'a': {}, 'k': 'x'}),
+        ('T-valued last index, whole target', (Assign(T['a'][T['k']], 9), T), {'a': {'x': 9}, 'k': 'x'}, lambda: {'a': {}, 'k': 'x'}),
+        ('T-valued index before the last', (Assign(T['a'][T['k']]['z'], 1), T['a']), {'x': {'z': 1}}, lambda: {'a': {'x': {}}, 'k': 'x'}),
+        ('tuple key as last index', (Assign(T['a'][(1, 2)], 5), T['a']), {(1, 2): 5}, lambda: {'a': {(1, 2): 0}}),
+        ('T-valued last index under S', (S(w=T['d']), Assign(S.w['a'][T['k']], 1), S.w), {'a': {'x': 1}}, lambda: {'d': {'a': {}}, 'k': 'x'}),
     ]
 
 
 def run_sroot(case):
     import glom
-    name, spec, want = sroot_scenarios()[case['i']]
-    target = {'v': 5}
+    name, spec, want, *own = sroot_scenarios()[case['i']]
+    target = own[0]() if own else {'v': 5}
     try:
         got = glom.glom(target, spec)
     except Exception as e:
@@ -228,7 +234,7 @@ def run_sroot(case):
     problems = []
     if got != want:
         problems.append('sroot %s: reading the destination back gives %r, not %r' % (name, got, want))
-    if target != {'v': 5}:
+    if not own and target != {'v': 5}:
         problems.append('sroot %s: the target was modified: %r' % (name, target))
     return {'problems': problems}
 
